@@ -6,6 +6,7 @@ import Dbg.Lemmas.ShardTables
 import Dbg.Lemmas.ShardPipeline
 import Dbg.Lemmas.Idempotent
 import Dbg.Lemmas.Payload
+import Dbg.Lemmas.Adjacency
 /-! # C04 — Sharded assembly equals unsharded assembly
 
 **Proved** (`C04_sharded_eq_direct`, last theorem of this file): for every read set and every configuration inside
@@ -500,6 +501,20 @@ theorem C04_payloads_agree (K P : Nat) (reads : List Seq) (perm : Option (Array 
   obtain ⟨outs, g', paths, outd, hb, hcg, hod, hdata⟩ :=
     Compress.sharded_payload_abstract ps.wfR ps.hesR hgR Ts ps.sw (fun _ _ => true) (fun _ _ => rfl) Td ps.hpd
   exact ⟨g', ⟨K, outd.map (·.1), st⟩, ps.shardedEq outs g' paths hb hcg, ps.directEq outd hod, hdata⟩
+
+/-- **C04 (adjacencies).** Under the same hypotheses the two final graphs have the same adjacencies: as unordered pairs of
+    canonical k-mers, the steps between consecutive k-mers inside nodes together with the edges `find_link` resolves
+    between node ends are, in both graphs, exactly the extensions recorded in the pruned reference table. -/
+theorem C04_adjacencies_agree (K P : Nat) (reads : List Seq) (perm : Option (Array Nat)) (st : Bool) (thr : Nat) (prune : Bool)
+    (sigmas : List (List Nat)) (dsigma : List Nat) (cfg : ShardCfg K P reads perm)
+    (hs : SigmasOK K P reads perm st thr sigmas dsigma) :
+    ∃ gs gd, sharded K P reads perm st thr prune sigmas = some gs ∧
+      direct K (reads.map plainRead) st thr dsigma = some gd ∧
+      ∀ k1 k2, Compress.AdjGS K st gs.nodes k1 k2 ↔ Compress.AdjGS K st gd.nodes k1 k2 := by
+  obtain ⟨R, Ts, Td, ps⟩ := pipe_setup K P reads perm st thr prune sigmas dsigma cfg hs
+  obtain ⟨outs, g', paths, outd, hb, hcg, hod, hadj⟩ :=
+    Compress.sharded_adjacency_abstract ps.wfR ps.hesR Ts ps.sw sumReduce (fun _ _ => true) (fun _ _ => rfl) Td ps.hpd
+  exact ⟨g', ⟨K, outd.map (·.1), st⟩, ps.shardedEq outs g' paths hb hcg, ps.directEq outd hod, hadj⟩
 
 /-- the hypotheses on the hash orders are satisfiable: the identity orders -/
 theorem sigmasOK_identity (K P : Nat) (reads : List Seq) (perm : Option (Array Nat)) (st : Bool) (thr : Nat)
